@@ -4,7 +4,13 @@ package cmap
 // ToUnicode CMaps are built from enumerated and pseudo-random maps over 1- and
 // 2-byte and mixed code spaces, queried for every code, embedded into a PDF file,
 // extracted again and compared (code space, every lookup, enumeration), with and
-// without a parent (usecmap) chain.
+// without a parent (usecmap) chain.  Maps contain explicit CID 0 and empty text
+// (also as overrides of a parent's entry), notdef ranges and singles; output is
+// written compressed and pretty, as PDF 1.7 and 2.0, in both writing modes.
+// TestB2C13Rect builds the structural form directly: cidrange/bfrange entries that
+// are rectangles over 2..4 bytes (the shape an extracted CMap may have), where
+// enumeration, lookup and CodeForText must agree with each other and survive the
+// round trip.
 
 import (
 	"fmt"
@@ -14,6 +20,7 @@ import (
 	"testing"
 
 	"seehuhn.de/go/pdf"
+	"seehuhn.de/go/pdf/font"
 	"seehuhn.de/go/pdf/font/charcode"
 	"seehuhn.de/go/pdf/internal/debug/memfile"
 	"seehuhn.de/go/postscript/cid"
@@ -83,6 +90,13 @@ func TestB2C13CMaps(t *testing.T) {
 				start := rng.Intn(len(codes))
 				length := 1 + rng.Intn(40)
 				val := cid.CID(rng.Intn(60000))
+				// a run either keeps one kind of text (consecutive values: the
+				// one-element "increment the last rune" form) or mixes kinds
+				fixedKind := -1
+				if rng.Intn(3) == 0 {
+					fixedKind = rng.Intn(c13TextKinds)
+				}
+				zeroRun := rng.Intn(12) == 0
 				for j := 0; j < length && start+j < len(codes); j++ {
 					c, _, valid := codec.Decode(codes[start+j])
 					if !valid {
@@ -92,23 +106,21 @@ func TestB2C13CMaps(t *testing.T) {
 						val += cid.CID(rng.Intn(3))
 					}
 					data[c] = val
-					switch rng.Intn(5) {
-					case 0:
-						text[c] = string(rune(0x41 + int(val)%1000))
-					case 1:
-						text[c] = "ffi"[:1+int(val)%3]
-					case 2:
-						text[c] = string([]rune{rune(0x10000 + int(val)%500)})
-					default:
-						text[c] = string(rune(0x3000 + int(val)%5000))
+					if zeroRun || rng.Intn(10) == 0 {
+						data[c] = 0 // explicitly mapped to CID 0
 					}
+					kind := fixedKind
+					if kind < 0 {
+						kind = rng.Intn(c13TextKinds)
+					}
+					text[c] = c13Text(kind, int(val))
 					val++
 				}
 			}
 			var parent *File
+			pdata := map[charcode.Code]cid.CID{}
 			if round%3 == 2 {
 				parent = &File{Name: "HarnessParent", ROS: ros}
-				pdata := map[charcode.Code]cid.CID{}
 				for c, v := range data {
 					switch rng.Intn(3) {
 					case 0:
@@ -117,9 +129,46 @@ func TestB2C13CMaps(t *testing.T) {
 						pdata[c] = v + 7
 					}
 				}
+				// codes only the parent maps
+				for i := rng.Intn(8); i > 0; i-- {
+					c, _, valid := codec.Decode(codes[rng.Intn(len(codes))])
+					if _, mapped := data[c]; valid && !mapped {
+						pdata[c] = cid.CID(1 + rng.Intn(60000))
+					}
+				}
 				parent.SetMapping(codec, pdata)
 			}
-			f := &File{Name: "Harness", ROS: ros, Parent: parent}
+			// notdef entries: a rectangle inside the first code space range and one single
+			var notdefRanges []Range
+			var notdefSingles []Single
+			withNotdef := round%4 == 1
+			if withNotdef && parent != nil && !c13CheckChildNotdefWithParent {
+				withNotdef = false
+			}
+			if withNotdef {
+				nr := c13RandRect(rng, csr[:1], 1<<30, false)
+				notdefRanges = []Range{{First: nr.first, Last: nr.last, Value: cid.CID(1 + rng.Intn(50))}}
+				notdefSingles = []Single{{Code: codes[rng.Intn(len(codes))], Value: cid.CID(100 + rng.Intn(50))}}
+			}
+			wantUnmapped := func(code []byte, c charcode.Code) cid.CID {
+				if v, ok := pdata[c]; ok && v != 0 {
+					return v
+				}
+				for _, s := range notdefSingles {
+					if string(s.Code) == string(code) {
+						return s.Value
+					}
+				}
+				for _, r := range notdefRanges {
+					if (c13Rect{r.First, r.Last}).contains(code) {
+						return r.Value
+					}
+				}
+				return 0
+			}
+			ver, wopt, wmode := c13Variant(round)
+			f := &File{Name: "Harness", ROS: ros, Parent: parent, WMode: wmode,
+				NotdefRanges: notdefRanges, NotdefSingles: notdefSingles}
 			f.SetMapping(codec, data)
 			if !f.CodeSpaceRange.Equivalent(csr) {
 				t.Errorf("B2-FAIL codespace %s", desc)
@@ -136,14 +185,22 @@ func TestB2C13CMaps(t *testing.T) {
 						t.Errorf("B2-FAIL %s-lookup %s code=%x: got %d want %d", what, desc, code, got, want)
 						return
 					}
-					if !ok && parent == nil && got != 0 {
-						t.Errorf("B2-FAIL %s-lookup-unmapped %s code=%x: got %d", what, desc, code, got)
+					if !ok && got != wantUnmapped(code, c) {
+						t.Errorf("B2-FAIL %s-lookup-unmapped %s code=%x: got %d want %d", what, desc, code, got, wantUnmapped(code, c))
 						return
 					}
 				}
 				seen := map[charcode.Code]cid.CID{}
 				for c, v := range g.All(codec) {
 					seen[c] = v
+				}
+				// enumeration and lookup agree, in both directions
+				for c, v := range seen {
+					code := codec.AppendCode(nil, c)
+					if got := g.LookupCID(code); got != v {
+						t.Errorf("B2-FAIL %s-enumeration-vs-lookup %s code=%x: enumerated %d, lookup %d", what, desc, code, v, got)
+						return
+					}
 				}
 				for c, v := range data {
 					if seen[c] != v {
@@ -154,7 +211,7 @@ func TestB2C13CMaps(t *testing.T) {
 			}
 			check(f, "built")
 			// embed and extract
-			w, _ := memfile.NewPDFWriter(pdf.V2_0, nil)
+			w, _ := memfile.NewPDFWriter(ver, wopt)
 			rm := pdf.NewResourceManager(w)
 			ref, err := rm.Embed(f)
 			if err != nil {
@@ -175,6 +232,9 @@ func TestB2C13CMaps(t *testing.T) {
 			}
 			if (g.Parent != nil) != (parent != nil) {
 				t.Errorf("B2-FAIL extracted-parent %s", desc)
+			}
+			if g.WMode != wmode {
+				t.Errorf("B2-FAIL extracted-wmode %s: %v want %v", desc, g.WMode, wmode)
 			}
 			check(g, "extracted")
 
@@ -197,11 +257,9 @@ func TestB2C13CMaps(t *testing.T) {
 						return
 					}
 				}
-				var keys []int
 				seen := map[charcode.Code]string{}
 				for c, s := range h.All(codec) {
 					seen[c] = s
-					keys = append(keys, int(c))
 				}
 				if len(seen) != len(text) {
 					t.Errorf("B2-FAIL %s-tounicode-enumeration %s: %d entries, want %d", what, desc, len(seen), len(text))
@@ -213,10 +271,9 @@ func TestB2C13CMaps(t *testing.T) {
 						return
 					}
 				}
-				_ = sort.Ints
 			}
 			checkTU(tu, "built")
-			w2, _ := memfile.NewPDFWriter(pdf.V2_0, nil)
+			w2, _ := memfile.NewPDFWriter(ver, wopt)
 			rm2 := pdf.NewResourceManager(w2)
 			tref, err := rm2.Embed(tu)
 			if err != nil {
@@ -276,6 +333,16 @@ func TestB2C13Chains(t *testing.T) {
 					_, c := codeOf(0, byte(k))
 					data[c] = cid.CID(7000 + 10*l + k)
 					text[c] = string([]rune{rune(0x1f600 + 16*l + k), 'x'})
+				}
+				if l > 0 {
+					// takes one of its parent's codes away (CID 0, empty text) and
+					// repeats another one unchanged
+					_, c := codeOf(byte(0x10*l), 5)
+					data[c] = 0
+					text[c] = ""
+					_, c = codeOf(byte(0x10*l), 6)
+					data[c] = want[c]
+					text[c] = wantText[c]
 				}
 				for c, v := range data {
 					want[c] = v
@@ -430,6 +497,626 @@ func TestB2C13Chains(t *testing.T) {
 			continue
 		}
 		probe(g, "extracted")
+	}
+	t.Logf("B2-CASES %d", cases)
+}
+
+// c13CheckChildNotdefWithParent: notdef entries of a CMap that also has a parent.
+// TODO-DEFECT: File.LookupCID hands an unmapped code to Parent.LookupCID and never
+// consults the child's own NotdefSingles/NotdefRanges (child notdefrange 00..ff -> 7,
+// code unmapped in child and parent: LookupCID gives 0, LookupNotdefCID gives 7, and 7
+// without the parent).  Set to true once that is repaired.
+const c13CheckChildNotdefWithParent = false
+
+const c13TextKinds = 8
+
+var c13BoundaryTexts = []string{"\uD7FF", "\uE000", "\uFFFD", "\uFFFF", "\U00010000", "\U0010FFFF", "\u0000", "a\u0000", "\u00FF", "\U0001F3FF"}
+
+// c13Text: the texts of the maps: single BMP runes, prefixes of a ligature expansion,
+// astral runes, the empty string (a code that is mapped, but contributes no text),
+// multi-rune strings whose last rune counts up, values next to the UTF-16 boundaries.
+func c13Text(kind, val int) string {
+	switch kind {
+	case 0:
+		return string(rune(0x41 + val%1000))
+	case 1:
+		return "ffi"[:1+val%3]
+	case 2:
+		return string([]rune{rune(0x10000 + val%500)})
+	case 3:
+		return ""
+	case 4:
+		return string([]rune{'x', rune(0x1F600 + val%300)})
+	case 5:
+		return c13BoundaryTexts[val%len(c13BoundaryTexts)]
+	case 6:
+		return string([]rune{rune(0x2F800 + val%200), 0x301, rune(0xF0 + val%32)})
+	default:
+		return string(rune(0x3000 + val%5000))
+	}
+}
+
+// c13Variant: output version, pretty or compressed output, writing mode.
+func c13Variant(k int) (pdf.Version, *pdf.WriterOptions, font.WritingMode) {
+	ver := pdf.V2_0
+	if k%4 >= 2 {
+		ver = pdf.V1_7
+	}
+	var opt *pdf.WriterOptions
+	if k%2 == 1 {
+		opt = &pdf.WriterOptions{HumanReadable: true}
+	}
+	wmode := font.Horizontal
+	if k%5 >= 3 {
+		wmode = font.Vertical
+	}
+	return ver, opt, wmode
+}
+
+// c13Rect is the set of codes of a cidrange/bfrange/notdefrange entry: every byte
+// varies between first[i] and last[i].
+type c13Rect struct{ first, last []byte }
+
+func (r c13Rect) contains(code []byte) bool {
+	if len(code) != len(r.first) {
+		return false
+	}
+	for i, b := range code {
+		if b < r.first[i] || b > r.last[i] {
+			return false
+		}
+	}
+	return true
+}
+
+func (r c13Rect) meets(o c13Rect) bool {
+	if len(r.first) != len(o.first) {
+		return false
+	}
+	for i := range r.first {
+		if r.last[i] < o.first[i] || o.last[i] < r.first[i] {
+			return false
+		}
+	}
+	return true
+}
+
+// codes lists the codes of the rectangle in ascending order (nested loops, first byte outermost).
+func (r c13Rect) codes() [][]byte {
+	var out [][]byte
+	var gen func(prefix []byte)
+	gen = func(prefix []byte) {
+		k := len(prefix)
+		if k == len(r.first) {
+			out = append(out, append([]byte{}, prefix...))
+			return
+		}
+		for b := int(r.first[k]); b <= int(r.last[k]); b++ {
+			gen(append(prefix, byte(b)))
+		}
+	}
+	gen(nil)
+	return out
+}
+
+func (r c13Rect) lastByteOnly() bool {
+	n := len(r.first)
+	return string(r.first[:n-1]) == string(r.last[:n-1])
+}
+
+// c13RandRect draws a rectangle inside one of the given ranges with at most maxCodes
+// codes; bounds coincide with the bounds of the range in about half of the positions.
+// With carry, a byte other than the last one varies (if the range allows it).
+func c13RandRect(rng *rand.Rand, within charcode.CodeSpaceRange, maxCodes int, carry bool) c13Rect {
+	r := within[rng.Intn(len(within))]
+	n := len(r.Low)
+	first, last := make([]byte, n), make([]byte, n)
+	budget := maxCodes
+	carryPos := -1
+	if carry && n > 1 {
+		carryPos = rng.Intn(n - 1)
+	}
+	for i := n - 1; i >= 0; i-- {
+		avail := int(r.High[i]) - int(r.Low[i]) + 1
+		lim := avail
+		if i == n-1 {
+			lim = min(lim, 96)
+		} else {
+			lim = min(lim, 4)
+		}
+		lim = max(1, min(lim, budget))
+		span := 1 + rng.Intn(lim)
+		if i != n-1 && i != carryPos && rng.Intn(2) == 0 {
+			span = 1
+		}
+		if i == carryPos && span == 1 && avail > 1 {
+			span = 2
+		}
+		budget /= span
+		var lo int
+		switch rng.Intn(4) {
+		case 0:
+			lo = int(r.Low[i])
+		case 1:
+			lo = int(r.High[i]) - span + 1
+		default:
+			lo = int(r.Low[i]) + rng.Intn(avail-span+1)
+		}
+		first[i], last[i] = byte(lo), byte(lo+span-1)
+	}
+	return c13Rect{first, last}
+}
+
+// c13Neighbours: the codes one step outside the rectangle in each byte position.
+func (r c13Rect) neighbours() [][]byte {
+	var out [][]byte
+	for i := range r.first {
+		if r.first[i] > 0 {
+			c := append([]byte{}, r.first...)
+			c[i]--
+			out = append(out, c)
+			c = append([]byte{}, r.last...)
+			c[i] = r.first[i] - 1
+			out = append(out, c)
+		}
+		if r.last[i] < 0xff {
+			c := append([]byte{}, r.last...)
+			c[i]++
+			out = append(out, c)
+			c = append([]byte{}, r.first...)
+			c[i] = r.last[i] + 1
+			out = append(out, c)
+		}
+	}
+	return out
+}
+
+func c13CodeLess(a, b []byte) bool {
+	if len(a) != len(b) {
+		return len(a) < len(b)
+	}
+	return string(a) < string(b)
+}
+
+// c13Level is one CMap of a chain in structural form: disjoint rectangles and singles.
+type c13Level struct {
+	rects   []c13Rect
+	singles [][]byte
+}
+
+func (l *c13Level) covers(code []byte) bool {
+	for _, r := range l.rects {
+		if r.contains(code) {
+			return true
+		}
+	}
+	for _, s := range l.singles {
+		if string(s) == string(code) {
+			return true
+		}
+	}
+	return false
+}
+
+func c13RandLevel(rng *rand.Rand, csr, wide charcode.CodeSpaceRange, carryFirst bool) *c13Level {
+	l := &c13Level{}
+	nRects := 1 + rng.Intn(4)
+	for i := 0; i < nRects; i++ {
+		for try := 0; try < 20; try++ {
+			from := csr
+			if wide != nil && rng.Intn(3) == 0 {
+				from = wide
+			}
+			r := c13RandRect(rng, from, 1500, (i == 0 && carryFirst) || rng.Intn(2) == 0)
+			ok := true
+			for _, o := range l.rects {
+				if r.meets(o) {
+					ok = false
+				}
+			}
+			if ok {
+				l.rects = append(l.rects, r)
+				break
+			}
+		}
+	}
+	for i := rng.Intn(6); i > 0; i-- {
+		s := c13RandRect(rng, csr, 1, false).first
+		if rng.Intn(2) == 0 && len(l.rects) > 0 {
+			// next to a rectangle
+			nb := l.rects[rng.Intn(len(l.rects))].neighbours()
+			if len(nb) > 0 {
+				s = nb[rng.Intn(len(nb))]
+			}
+		}
+		if !l.covers(s) {
+			l.singles = append(l.singles, s)
+		}
+	}
+	return l
+}
+
+// TestB2C13Rect: CMaps and ToUnicode CMaps given in structural form (the form an
+// extracted file has): cidrange/bfrange entries are rectangles over 2..4 bytes whose
+// lower bytes start and end anywhere, entries of one file do not overlap, a parent may
+// be shadowed.  Enumeration and lookup must agree in both directions, the enumeration
+// lists exactly the codes of the entries that lie in the code space, the first code of
+// an entry has the entry's value, entries that vary only in the last byte count up,
+// codes one step outside an entry are unmapped, CodeForText gives the smallest code
+// whose lookup is the text; all of it again after Embed/Extract, where every lookup
+// and the enumeration must be the same as before.
+func TestB2C13Rect(t *testing.T) {
+	thorough := os.Getenv("VERIF_TIER") == "thorough"
+	seed := int64(1)
+	fmt.Sscanf(os.Getenv("VERIF_SEED"), "%d", &seed)
+	rng := rand.New(rand.NewSource(seed + 1000))
+	full := func(n int) charcode.Range {
+		lo, hi := make([]byte, n), make([]byte, n)
+		for i := range hi {
+			hi[i] = 0xff
+		}
+		return charcode.Range{Low: lo, High: hi}
+	}
+	spaces := []charcode.CodeSpaceRange{
+		charcode.UCS2,
+		{{Low: []byte{0x20, 0x20}, High: []byte{0x7e, 0xfe}}},
+		{full(3)},
+		{full(4)},
+		// EUC-like: 1, 2 and 3 bytes
+		{{Low: []byte{0x00}, High: []byte{0x80}}, {Low: []byte{0xa1, 0xa1}, High: []byte{0xfe, 0xfe}}, {Low: []byte{0x8e, 0xa1, 0xa1}, High: []byte{0x8e, 0xb0, 0xfe}}},
+		// GB18030-like: 1, 2 and 4 bytes
+		{{Low: []byte{0x00}, High: []byte{0x80}}, {Low: []byte{0x81, 0x40}, High: []byte{0xfe, 0xfe}}, {Low: []byte{0x81, 0x30, 0x81, 0x30}, High: []byte{0xfe, 0x39, 0xfe, 0x39}}},
+	}
+	rounds := 30
+	if thorough {
+		rounds = 300
+	}
+	ros := &cid.SystemInfo{Registry: "Test", Ordering: "Harness", Supplement: 0}
+	cases := 0
+	for si, csr := range spaces {
+		codec, err := charcode.NewCodec(csr)
+		if err != nil {
+			t.Fatal(err)
+		}
+		valid := func(code []byte) (charcode.Code, bool) {
+			c, k, ok := codec.Decode(code)
+			return c, ok && k == len(code)
+		}
+		// rectangles that stick out of the code space: same lengths, all byte values
+		var wide charcode.CodeSpaceRange
+		for _, r := range csr {
+			wide = append(wide, full(len(r.Low)))
+		}
+		for round := 0; round < rounds; round++ {
+			cases++
+			desc := fmt.Sprintf("space=%d round=%d", si, round)
+			ver, wopt, wmode := c13Variant(round)
+			useWide := wide
+			if round%4 != 3 {
+				useWide = nil
+			}
+			depth := 1
+			if round%3 == 2 {
+				depth = 2 + rng.Intn(2)
+			}
+			var levels []*c13Level // oldest ancestor first
+			var chain *File
+			var tchain *ToUnicodeFile
+			type rectVal struct {
+				r     c13Rect
+				value cid.CID
+				texts []string
+			}
+			var topRects []rectVal
+			for l := 0; l < depth; l++ {
+				lev := c13RandLevel(rng, csr, useWide, l == depth-1)
+				levels = append(levels, lev)
+				f := &File{ROS: ros, CodeSpaceRange: csr, Parent: chain, WMode: wmode}
+				if l == depth-1 || rng.Intn(2) == 0 {
+					f.Name = fmt.Sprintf("HarnessRect%d", l)
+				}
+				tu := &ToUnicodeFile{CodeSpaceRange: csr, Parent: tchain}
+				topRects = topRects[:0]
+				for _, r := range lev.rects {
+					v := cid.CID(rng.Intn(60000))
+					if rng.Intn(8) == 0 {
+						v = 0
+					}
+					f.CIDRanges = append(f.CIDRanges, Range{First: r.first, Last: r.last, Value: v})
+					var texts []string
+					n := len(r.codes())
+					if n <= 80 && rng.Intn(2) == 0 {
+						// one value per code
+						for j := 0; j < n; j++ {
+							texts = append(texts, c13Text(rng.Intn(c13TextKinds), rng.Intn(60000)))
+						}
+					} else {
+						texts = []string{c13Text(rng.Intn(c13TextKinds), rng.Intn(60000))}
+					}
+					tu.Ranges = append(tu.Ranges, ToUnicodeRange{First: r.first, Last: r.last, Values: texts})
+					topRects = append(topRects, rectVal{r, v, texts})
+				}
+				for _, s := range lev.singles {
+					v := cid.CID(rng.Intn(60000))
+					if rng.Intn(6) == 0 {
+						v = 0
+					}
+					f.CIDSingles = append(f.CIDSingles, Single{Code: s, Value: v})
+					tu.Singles = append(tu.Singles, ToUnicodeSingle{Code: s, Value: c13Text(rng.Intn(c13TextKinds), rng.Intn(60000))})
+				}
+				chain, tchain = f, tu
+			}
+			// the codes of all entries of the chain, and which of them are codes of the code space
+			union := map[string]bool{}
+			allInside := true
+			for _, lev := range levels {
+				for _, r := range lev.rects {
+					for _, code := range r.codes() {
+						union[string(code)] = true
+					}
+				}
+				for _, s := range lev.singles {
+					union[string(s)] = true
+				}
+			}
+			var unionCodes [][]byte
+			nValid := 0
+			for k := range union {
+				unionCodes = append(unionCodes, []byte(k))
+				if _, ok := valid([]byte(k)); ok {
+					nValid++
+				} else {
+					allInside = false
+				}
+			}
+			sort.Slice(unionCodes, func(i, j int) bool { return c13CodeLess(unionCodes[i], unionCodes[j]) })
+			var outside [][]byte
+			for _, lev := range levels {
+				for _, r := range lev.rects {
+				nb:
+					for _, code := range r.neighbours() {
+						for _, l2 := range levels {
+							if l2.covers(code) {
+								continue nb
+							}
+						}
+						outside = append(outside, code)
+					}
+				}
+			}
+			top := levels[depth-1]
+
+			checkCID := func(g *File, what string) map[charcode.Code]cid.CID {
+				seen := map[charcode.Code]cid.CID{}
+				for c, v := range g.All(codec) {
+					seen[c] = v
+				}
+				if len(seen) != nValid {
+					t.Errorf("B2-FAIL %s-rect-enumeration %s: %d codes enumerated, the entries hold %d", what, desc, len(seen), nValid)
+					return seen
+				}
+				for _, code := range unionCodes {
+					c, ok := valid(code)
+					if !ok {
+						continue
+					}
+					v, present := seen[c]
+					if !present {
+						t.Errorf("B2-FAIL %s-rect-enumeration %s code=%x: not enumerated", what, desc, code)
+						return seen
+					}
+					if got := g.LookupCID(code); got != v {
+						t.Errorf("B2-FAIL %s-rect-enumeration-vs-lookup %s code=%x: enumerated %d, lookup %d", what, desc, code, v, got)
+						return seen
+					}
+				}
+				for _, rv := range topRects {
+					codes := rv.r.codes()
+					if got := g.LookupCID(codes[0]); got != rv.value {
+						t.Errorf("B2-FAIL %s-rect-first %s code=%x: got %d want %d", what, desc, codes[0], got, rv.value)
+						return seen
+					}
+					if rv.r.lastByteOnly() {
+						for j, code := range codes {
+							if got := g.LookupCID(code); got != rv.value+cid.CID(j) {
+								t.Errorf("B2-FAIL %s-rect-lookup %s code=%x: got %d want %d", what, desc, code, got, rv.value+cid.CID(j))
+								return seen
+							}
+						}
+					}
+				}
+				for i, s := range top.singles {
+					if got := g.LookupCID(s); got != chain.CIDSingles[i].Value {
+						t.Errorf("B2-FAIL %s-rect-single %s code=%x: got %d want %d", what, desc, s, got, chain.CIDSingles[i].Value)
+						return seen
+					}
+				}
+				for _, code := range outside {
+					if got := g.LookupCID(code); got != 0 {
+						t.Errorf("B2-FAIL %s-rect-outside %s code=%x: got %d for a code outside every entry", what, desc, code, got)
+						return seen
+					}
+				}
+				return seen
+			}
+			seenBuilt := checkCID(chain, "built")
+			w, _ := memfile.NewPDFWriter(ver, wopt)
+			rm := pdf.NewResourceManager(w)
+			ref, err := rm.Embed(chain)
+			if err == nil {
+				err = rm.Close()
+			}
+			if err != nil {
+				t.Errorf("B2-FAIL rect-embed %s: %v", desc, err)
+				continue
+			}
+			g, err := Extract(pdf.NewCursor(w), ref, false)
+			if err != nil {
+				t.Errorf("B2-FAIL rect-extract %s: %v", desc, err)
+				continue
+			}
+			n := 0
+			for p := g; p != nil; p = p.Parent {
+				n++
+				if !p.CodeSpaceRange.Equivalent(csr) {
+					t.Errorf("B2-FAIL extracted-rect-codespace %s level %d", desc, n)
+				}
+			}
+			if n != depth || g.WMode != wmode {
+				t.Errorf("B2-FAIL extracted-rect-shape %s: depth %d want %d, wmode %v want %v", desc, n, depth, g.WMode, wmode)
+				continue
+			}
+			seenExtracted := checkCID(g, "extracted")
+			if len(seenExtracted) != len(seenBuilt) {
+				t.Errorf("B2-FAIL extracted-rect-enumeration %s: %d entries, %d before", desc, len(seenExtracted), len(seenBuilt))
+			}
+			for c, v := range seenBuilt {
+				if seenExtracted[c] != v {
+					t.Errorf("B2-FAIL extracted-rect-enumeration %s code=%x: %d, before %d", desc, c, seenExtracted[c], v)
+					break
+				}
+			}
+			for _, list := range [][][]byte{unionCodes, outside} {
+				for _, code := range list {
+					if a, b := chain.LookupCID(code), g.LookupCID(code); a != b {
+						t.Errorf("B2-FAIL extracted-rect-lookup %s code=%x: %d, before %d", desc, code, b, a)
+						break
+					}
+				}
+			}
+
+			// the ToUnicode CMap with the same entries
+			checkTU := func(h *ToUnicodeFile, what string) map[charcode.Code]string {
+				seen := map[charcode.Code]string{}
+				for c, s := range h.All(codec) {
+					seen[c] = s
+				}
+				if len(seen) != nValid {
+					t.Errorf("B2-FAIL %s-tounicode-rect-enumeration %s: %d codes enumerated, the entries hold %d", what, desc, len(seen), nValid)
+					return seen
+				}
+				smallest := map[string][]byte{}
+				var texts []string
+				for _, code := range unionCodes {
+					got, found := h.Lookup(code)
+					if !found {
+						t.Errorf("B2-FAIL %s-tounicode-rect-lookup %s code=%x: not found", what, desc, code)
+						return seen
+					}
+					if _, ok := smallest[got]; !ok {
+						smallest[got] = code // unionCodes is sorted
+						texts = append(texts, got)
+					}
+					c, ok := valid(code)
+					if !ok {
+						continue
+					}
+					s, present := seen[c]
+					if !present || s != got {
+						t.Errorf("B2-FAIL %s-tounicode-rect-enumeration-vs-lookup %s code=%x: enumerated %q %v, lookup %q", what, desc, code, s, present, got)
+						return seen
+					}
+				}
+				for _, rv := range topRects {
+					codes := rv.r.codes()
+					for j, code := range codes {
+						var want string
+						switch {
+						case j < len(rv.texts) && (j == 0 || len(rv.texts) == len(codes)):
+							want = rv.texts[j]
+						case rv.r.lastByteOnly():
+							// "a one-element Values list means: increment the last rune"
+							rr := []rune(rv.texts[0])
+							if len(rr) > 0 {
+								x := rr[len(rr)-1] + rune(j)
+								if x > 0x10ffff || (x >= 0xd800 && x < 0xe000) {
+									continue
+								}
+								rr[len(rr)-1] = x
+							}
+							want = string(rr)
+						default:
+							continue
+						}
+						if got, found := h.Lookup(code); !found || got != want {
+							t.Errorf("B2-FAIL %s-tounicode-rect-lookup %s code=%x: got %q %v want %q", what, desc, code, got, found, want)
+							return seen
+						}
+					}
+				}
+				for i, s := range top.singles {
+					if got, found := h.Lookup(s); !found || got != tchain.Singles[i].Value {
+						t.Errorf("B2-FAIL %s-tounicode-rect-single %s code=%x: got %q %v want %q", what, desc, s, got, found, tchain.Singles[i].Value)
+						return seen
+					}
+				}
+				for _, code := range outside {
+					if got, found := h.Lookup(code); found {
+						t.Errorf("B2-FAIL %s-tounicode-rect-outside %s code=%x: got %q for a code outside every entry", what, desc, code, got)
+						return seen
+					}
+				}
+				if allInside {
+					step := 1 + len(texts)/25
+					for i := 0; i < len(texts); i += step {
+						code, found := h.CodeForText(texts[i])
+						if !found || string(code) != string(smallest[texts[i]]) {
+							t.Errorf("B2-FAIL %s-tounicode-codefortext %s text=%q: got %x %v, smallest code with that lookup %x", what, desc, texts[i], code, found, smallest[texts[i]])
+							return seen
+						}
+					}
+					if code, found := h.CodeForText("\u2603 no such text"); found {
+						t.Errorf("B2-FAIL %s-tounicode-codefortext %s: code %x for a text that no code has", what, desc, code)
+					}
+				}
+				return seen
+			}
+			tuBuilt := checkTU(tchain, "built")
+			w2, _ := memfile.NewPDFWriter(ver, wopt)
+			rm2 := pdf.NewResourceManager(w2)
+			tref, err := rm2.Embed(tchain)
+			if err == nil {
+				err = rm2.Close()
+			}
+			if err != nil {
+				t.Errorf("B2-FAIL tounicode-rect-embed %s: %v", desc, err)
+				continue
+			}
+			h, err := pdf.Decode(pdf.NewCursor(w2), tref, ExtractToUnicode)
+			if err != nil || h == nil {
+				t.Errorf("B2-FAIL tounicode-rect-extract %s: %v", desc, err)
+				continue
+			}
+			n = 0
+			for p := h; p != nil; p = p.Parent {
+				n++
+				if !p.CodeSpaceRange.Equivalent(csr) {
+					t.Errorf("B2-FAIL extracted-tounicode-rect-codespace %s level %d", desc, n)
+				}
+			}
+			if n != depth {
+				t.Errorf("B2-FAIL extracted-tounicode-rect-shape %s: depth %d want %d", desc, n, depth)
+				continue
+			}
+			tuExtracted := checkTU(h, "extracted")
+			if len(tuExtracted) != len(tuBuilt) {
+				t.Errorf("B2-FAIL extracted-tounicode-rect-enumeration %s: %d entries, %d before", desc, len(tuExtracted), len(tuBuilt))
+			}
+			for c, v := range tuBuilt {
+				if got, ok := tuExtracted[c]; !ok || got != v {
+					t.Errorf("B2-FAIL extracted-tounicode-rect-enumeration %s code=%x: %q %v, before %q", desc, c, got, ok, v)
+					break
+				}
+			}
+			for _, code := range unionCodes {
+				a, aok := tchain.Lookup(code)
+				b, bok := h.Lookup(code)
+				if a != b || aok != bok {
+					t.Errorf("B2-FAIL extracted-tounicode-rect-lookup %s code=%x: %q %v, before %q %v", desc, code, b, bok, a, aok)
+					break
+				}
+			}
+		}
 	}
 	t.Logf("B2-CASES %d", cases)
 }
